@@ -11,8 +11,8 @@ from . import core
 from . import c08_sched as S
 
 PROP = "C08"
-LEAN_TARGETS = ["Asynkit.Props.C08", "Asynkit.Lemmas.GenEqC08", "Asynkit.Lemmas.GenEqSched", "Asynkit.Lemmas.GenEqPosPQ", "Asynkit.Lemmas.GenEqPQ"]
-PROPS_FILES = ["Asynkit/Props/C08.lean", "Asynkit/Lemmas/GenEqC08.lean", "Asynkit/Lemmas/GenEqSched.lean", "Asynkit/Lemmas/GenEqPosPQ.lean", "Asynkit/Lemmas/GenEqPQ.lean"]
+LEAN_TARGETS = ["Asynkit.Props.C08", "Asynkit.Lemmas.GenEqC08", "Asynkit.Lemmas.GenEqSched", "Asynkit.Lemmas.GenEqPosPQ", "Asynkit.Lemmas.GenEqPQ", "Asynkit.Lemmas.GenEqLoopStd"]
+PROPS_FILES = ["Asynkit/Props/C08.lean", "Asynkit/Lemmas/GenEqC08.lean", "Asynkit/Lemmas/GenEqSched.lean", "Asynkit/Lemmas/GenEqPosPQ.lean", "Asynkit/Lemmas/GenEqPQ.lean", "Asynkit/Lemmas/GenEqLoopStd.lean"]
 DRIVERS = ["Sched"]
 TRUSTED = [
     'Lean 4.33 kernel; axioms ⊆ {propext, Classical.choice, Quot.sound} (audited per theorem each run)',
